@@ -12,8 +12,8 @@ import (
 
 func init() {
 	register(&PropMeta{
-		ID:    "C14",
-		Level: "other",
+		ID:          "C14",
+		Level:       "other",
 		Explanation: "Decides the implications that are visible in the code's shape: (R1) every store of true to a 'did X' flag is guarded by (or co-stored with) the matching 'had the chance' flag of the same player's statistics; the pairing table is derived from the statistics struct; (R1x) side condition that keeps one shape-breaking construct latent; (R2) each wager method bumps the action counter exactly once on its success path, call/check counters only in their own methods, every raise-counter bump is dominated by an action-counter bump; (R3) fold flag and fold round are stored together and only in the fold method; (R4) the 3-bet flag is written only in full-range loops that set it at one index and clear it elsewhere (or clear it everywhere) and the guard object is the acting player at every call site; (R5) the between-hands reset installs the zero constructor for every player and that constructor is all-zero. NOT decided: that the chance predicates implement poker's definitions.",
 		Rules: map[string]string{
 			"R1":  "did ⇒ chance: store of true to a did-flag guarded by / co-stored with the matching chance flag of the same statistics object",
